@@ -37,14 +37,15 @@ type vrScenario struct {
 	sbiFails   bool
 	modifyFail string // "", intended, config
 	// extended scenarios
-	timeout        time.Duration // rollback timeout of the transaction (default one hour)
-	replaceContent string        // content of the replace intent (default valid)
-	existingPrio   int32         // != 0: the intent already exists in the intended store with this priority
-	newPrio        int32         // priority of the intent in the transaction (default 10)
-	sbiFailsFrom   int           // > 0: the target rejects its n-th and every later Set (1-based)
-	intents        int           // > 1: that many intents (owner1..ownerN, same content) in the transaction
-	modifyFailNth  int           // > 0: the n-th write of the intended store fails (1-based), the others succeed
-	duplicate      bool          // the request names owner1 twice: it is refused as a whole
+	timeout         time.Duration // rollback timeout of the transaction (default one hour)
+	replaceContent  string        // content of the replace intent (default valid)
+	existingPrio    int32         // != 0: the intent already exists in the intended store with this priority
+	newPrio         int32         // priority of the intent in the transaction (default 10)
+	sbiFailsFrom    int           // > 0: the target rejects its n-th and every later Set (1-based)
+	intents         int           // > 1: that many intents (owner1..ownerN, same content) in the transaction
+	modifyFailNth   int           // > 0: the n-th write of the intended store fails (1-based), the others succeed
+	duplicate       bool          // the request names owner1 twice: it is refused as a whole
+	existingContent string        // content of the existing intent (default valid)
 }
 
 var vrTraceMu sync.Mutex
@@ -154,7 +155,11 @@ func vrRunLive(t *testing.T, sc vrScenario) (tracep *[]string, rsp *sdcpb.Transa
 	}
 	var existing []*cache.Update
 	if sc.existingPrio != 0 {
-		for _, u := range mk("owner1", sc.existingPrio, "valid").GetUpdates() {
+		ec := sc.existingContent
+		if ec == "" {
+			ec = "valid"
+		}
+		for _, u := range mk("owner1", sc.existingPrio, ec).GetUpdates() {
 			existing = append(existing, u)
 		}
 	}
@@ -450,6 +455,29 @@ func TestVerifReplayTransactionSet(t *testing.T) {
 		trace, _, err, _ := vrRun(t, sc)
 		if err == nil || len(trace) != 0 {
 			fmt.Printf("REPLAY-FAIL fn=%s clause=refused_request_has_no_effect input=%s,sameIntentTwice=true err=%v effects=%v why=a request that names an intent twice has to be refused without any effect\n", fnTS, sc, err, trace)
+		}
+	}
+	// C05: a rollback the validation rejects has restored nothing: the cancel says so (the stored former version of the
+	// intent lacks a mandatory leaf, the transaction repairs it, the cancel would bring the former version back)
+	{
+		n++
+		sc := vrScenario{content: "valid", existingPrio: 10, existingContent: "missing-mandatory"}
+		trace, _, err, d := vrRunLive(t, sc)
+		if err != nil {
+			fmt.Printf("REPLAY-FAIL fn=%s clause=panic input=%s why=unexpected error %v\n", fnTS, sc, err)
+		} else {
+			vrTraceMu.Lock()
+			before := len(*trace)
+			vrTraceMu.Unlock()
+			cerr := d.TransactionCancel(context.Background(), "trans1")
+			vrTraceMu.Lock()
+			after := len(*trace)
+			vrTraceMu.Unlock()
+			if cerr == nil && after == before {
+				for _, fn := range []string{"(*datastore.DatastoreRollbackAdapter).TransactionRollback", "(*datastore/types.TransactionManager).Cancel", fnTS} {
+					fmt.Printf("REPLAY-FAIL fn=%s clause=a_rejected_rollback_is_an_error input=%s,formerVersion=missing-mandatory,endedBy=cancel why=the rollback was rejected by the validation (nothing sent, nothing restored), yet the cancel reports success\n", fn, sc)
+				}
+			}
 		}
 	}
 	// C06: whatever a cancel or the timer runs into, the datastore accepts a new transaction once the timeout has passed
